@@ -339,6 +339,31 @@ func ruleGridDimensions(c *eng.Ctx) {
 			if !isLd || ld.Op != token.MUL {
 				return
 			}
+			if cell, isCell := ld.X.(*ssa.Alloc); isCell {
+				// the running maximum is a local that a closure further down captures, so it lives in a cell: the
+				// maximum is stored back into the cell inside the loop
+				upd := false
+				eng.Instrs(in.Parent(), false, func(i2 ssa.Instruction) {
+					if st, ok := i2.(*ssa.Store); ok && st.Addr == ssa.Value(cell) && eng.InLoop(st.Block()) && (st.Val == col || eng.Slice(st.Val, nil)[col]) {
+						upd = true
+					}
+				})
+				if !upd {
+					return
+				}
+				found = true
+				call := col.(*ssa.Extract).Tuple.(*ssa.Call)
+				for v := range eng.Slice(call.Call.Args[0], nil) {
+					if ia, isIA := v.(*ssa.IndexAddr); isIA {
+						if fr, isF := eng.LoadOfField(ia.X); isF && fr.Field == "Cells" {
+							if _, isInd := eng.Induction(ia.Index); isInd {
+								ok = true
+							}
+						}
+					}
+				}
+				return
+			}
 			fa, isFA := ld.X.(*ssa.FieldAddr)
 			if !isFA {
 				return
